@@ -36,12 +36,6 @@ impl<'ast> Visit<'ast> for Shapes {
     }
 }
 
-fn shapes(b: &syn::Block) -> Shapes {
-    let mut s = Shapes::default();
-    s.visit_block(b);
-    s
-}
-
 /// the `[features]` table of a Cargo.toml as (name, entries)
 fn features(path: &std::path::Path) -> Result<Vec<(String, Vec<String>)>, String> {
     let src = std::fs::read_to_string(path).map_err(|e| format!("{}: {e}", path.display()))?;
@@ -78,162 +72,357 @@ fn features(path: &std::path::Path) -> Result<Vec<(String, Vec<String>)>, String
     Ok(out)
 }
 
+
+/// what each local of a function body is bound to: `let x = e` ↦ `e`; a pattern over a scrutinee `e`
+/// (`if let`, `let … else`, `match` arm, closure-free) ↦ `e#<path>` with path `Some`, `Some.0`, `Some.1`, `0`, `1` …
+#[derive(Default)]
+struct Bindings(Vec<(String, String)>);
+
+fn pat_idents(p: &syn::Pat, path: &str, out: &mut Vec<(String, String)>) {
+    match p {
+        syn::Pat::Ident(i) => out.push((i.ident.to_string(), path.to_string())),
+        syn::Pat::Reference(r) => pat_idents(&r.pat, path, out),
+        syn::Pat::Paren(r) => pat_idents(&r.pat, path, out),
+        syn::Pat::Type(t) => pat_idents(&t.pat, path, out),
+        syn::Pat::Tuple(t) => {
+            for (i, e) in t.elems.iter().enumerate() {
+                let sub = if path.is_empty() { format!("{i}") } else { format!("{path}.{i}") };
+                pat_idents(e, &sub, out);
+            }
+        }
+        syn::Pat::TupleStruct(t) => {
+            let name = t.path.segments.last().map(|s| s.ident.to_string()).unwrap_or_default();
+            let base = if path.is_empty() { name } else { format!("{path}.{name}") };
+            if t.elems.len() == 1 {
+                // `Some((a, b))` ↦ Some.0 / Some.1, `Some(a)` ↦ Some
+                match &t.elems[0] {
+                    syn::Pat::Tuple(_) => pat_idents(&t.elems[0], &base, out),
+                    other => pat_idents(other, &base, out),
+                }
+            } else {
+                for (i, e) in t.elems.iter().enumerate() {
+                    pat_idents(e, &format!("{base}.{i}"), out);
+                }
+            }
+        }
+        _ => {}
+    }
+}
+
+/// is the first `(` closed by the last `)`?
+fn wraps(t: &str) -> bool {
+    let mut depth = 0i32;
+    for (i, ch) in t.char_indices() {
+        match ch {
+            '(' => depth += 1,
+            ')' => {
+                depth -= 1;
+                if depth == 0 && i != t.len() - 1 {
+                    return false;
+                }
+            }
+            _ => {}
+        }
+    }
+    true
+}
+
+impl Bindings {
+    fn add_pat(&mut self, pat: &syn::Pat, scrutinee: &syn::Expr) {
+        let mut ids = vec![];
+        pat_idents(pat, "", &mut ids);
+        let e = ts(scrutinee);
+        for (id, path) in ids {
+            self.0.push((id, if path.is_empty() { e.clone() } else { format!("{e}#{path}") }));
+        }
+    }
+    /// what `side` denotes: strips `&`, `*`, parentheses and `.clone()`, follows local bindings (a few levels)
+    fn resolve(&self, side: &str) -> String {
+        let mut cur = side.to_string();
+        for _ in 0..4 {
+            let mut t = cur.trim_start_matches(['&', '*']).to_string();
+            while t.starts_with('(') && t.ends_with(')') && wraps(&t) {
+                t = t[1..t.len() - 1].trim_start_matches(['&', '*']).to_string();
+            }
+            let t = t.strip_suffix(".clone()").map(|x| x.to_string()).unwrap_or(t);
+            match self.0.iter().rev().find(|(id, _)| *id == t) {
+                Some((_, src)) => cur = src.clone(),
+                None => return t,
+            }
+        }
+        cur
+    }
+}
+
+impl<'ast> Visit<'ast> for Bindings {
+    fn visit_local(&mut self, l: &'ast syn::Local) {
+        if let Some(init) = &l.init {
+            self.add_pat(&l.pat, &init.expr);
+        }
+        syn::visit::visit_local(self, l);
+    }
+    fn visit_expr_let(&mut self, l: &'ast syn::ExprLet) {
+        self.add_pat(&l.pat, &l.expr);
+        syn::visit::visit_expr_let(self, l);
+    }
+    fn visit_expr_match(&mut self, m: &'ast syn::ExprMatch) {
+        for arm in &m.arms {
+            self.add_pat(&arm.pat, &m.expr);
+        }
+        syn::visit::visit_expr_match(self, m);
+    }
+    fn visit_expr_for_loop(&mut self, l: &'ast syn::ExprForLoop) {
+        self.add_pat(&l.pat, &l.expr);
+        syn::visit::visit_expr_for_loop(self, l);
+    }
+}
+
+fn analyse(blocks: &[&syn::Block]) -> (Shapes, Bindings) {
+    let mut s = Shapes::default();
+    let mut b = Bindings::default();
+    for blk in blocks {
+        s.visit_block(blk);
+        b.visit_block(blk);
+    }
+    (s, b)
+}
+
+/// a comparison as `small (<|<=) large`: (small, strict, large)
+fn normalise(l: &str, op: &str, r: &str) -> Option<(String, bool, String)> {
+    match op {
+        "<" => Some((l.to_string(), true, r.to_string())),
+        "<=" => Some((l.to_string(), false, r.to_string())),
+        ">" => Some((r.to_string(), true, l.to_string())),
+        ">=" => Some((r.to_string(), false, l.to_string())),
+        _ => None,
+    }
+}
+
+/// the comparisons of a body, normalised, with both sides resolved through the local bindings
+fn comparisons(sh: &Shapes, b: &Bindings) -> Vec<(String, bool, String)> {
+    sh.bins.iter().filter_map(|(l, op, r)| normalise(l, op, r)).map(|(s, strict, l)| (b.resolve(&s), strict, b.resolve(&l))).collect()
+}
+
+fn first_param(sig: &syn::Signature) -> Option<String> {
+    sig.inputs.iter().find_map(|a| match a {
+        syn::FnArg::Typed(t) => match &*t.pat {
+            syn::Pat::Ident(i) => Some(i.ident.to_string()),
+            _ => None,
+        },
+        _ => None,
+    })
+}
+
+fn is_far_dist(x: &str) -> bool {
+    x.contains("self.farthest_record") && x.ends_with("#Some.1")
+}
+
+
+/// token strings are whitespace-free; give binary operators back their spaces so that `syn::parse_str` reads them
+fn expand_spaces(x: &str) -> String {
+    x.replace('/', " / ").replace('*', " * ").replace('+', " + ")
+}
 pub fn generate(repo: &PathBuf) -> Result<String, String> {
     let rel = "ant-networking/src/record_store.rs";
     let file = parse_file(&repo.join(rel))?;
     let max_records = const_value(&file, "MAX_RECORDS_COUNT")?;
     let cache_size = const_value(&file, "MAX_RECORDS_CACHE_SIZE")?;
+    let file_consts = consts(&file);
+    let const_env = |n: &str| -> Option<u128> { file_consts.iter().find(|(k, _)| k == n).and_then(|_| const_value(&file, n).ok()) };
+    // functions modelled in their own right: never looked through as "helpers"
+    let stop = ["remove", "put_verified", "mark_as_stored", "prune_records_if_needed", "cleanup_irrelevant_records",
+        "calculate_farthest", "get_record_from_bytes", "prepare_record_bytes", "read_from_disk", "generate_filename",
+        "get_data_from_filename", "update_records_from_an_existing_store", "push_back", "get", "put"];
 
-    // prune_records_if_needed: `records.len() < max_records` ⇒ Ok; `farthest_distance < distance(incoming)` ⇒ Err(MaxRecords)
+    // ---- prune_records_if_needed: `records.len() < max_records` ⇒ Ok; `farthest < distance(incoming)` ⇒ Err(MaxRecords)
     let prune = impl_fn(&file, "NodeRecordStore", None, "prune_records_if_needed")?;
-    let sh = shapes(&prune.block);
-    let not_full = sh.bins.iter().find(|(l, _, r)| l == "self.records.len()" && r == "self.config.max_records")
-        .ok_or("prune_records_if_needed: expected a comparison of self.records.len() with self.config.max_records")?;
-    if not_full.1 != "<" {
-        return Err(format!("prune_records_if_needed: not-full test uses `{}` (expected `<`)", not_full.1));
+    let incoming = first_param(&prune.sig).ok_or("prune_records_if_needed: no key parameter")?;
+    let blocks = with_private_helpers(&file, &prune.block, &stop);
+    let (sh, b) = analyse(&blocks);
+    let cmps = comparisons(&sh, &b);
+    match cmps.iter().find(|(s, _, l)| (s == "self.records.len()" && l == "self.config.max_records") || (l == "self.records.len()" && s == "self.config.max_records")) {
+        Some((s, true, _)) if s == "self.records.len()" => {}
+        other => return Err(format!("prune_records_if_needed: expected the not-full test `self.records.len() < self.config.max_records`, found {other:?}")),
     }
-    let refuse = sh.bins.iter().find(|(l, _, r)| l == "farthest_record_distance" && r.contains("incoming_record_key"))
-        .ok_or("prune_records_if_needed: expected `farthest_record_distance <op> distance(incoming_record_key)`")?;
-    let refuse_strict = match refuse.1.as_str() {
-        "<" => true,
-        "<=" => false,
-        o => return Err(format!("prune_records_if_needed: unexpected operator `{o}` in the refuse test")),
+    let is_incoming = |x: &str| x.contains(".distance(") && x.contains(&incoming);
+    let refuse_strict = match cmps.iter().find(|(s, _, l)| (is_far_dist(s) && is_incoming(l)) || (is_far_dist(l) && is_incoming(s))) {
+        Some((s, strict, _)) if is_far_dist(s) => *strict,
+        other => return Err(format!("prune_records_if_needed: expected `<farthest distance> (<|<=) <distance of the incoming key>` guarding Err(MaxRecords), found {other:?} among {cmps:?}")),
     };
-    let c = calls_in_block(&prune.block);
+    let c = calls_in_blocks(&blocks);
     if !c.paths.iter().any(|p| p == "Error::MaxRecords") || !c.methods.iter().any(|m| m == "remove") {
         return Err("prune_records_if_needed: expected Err(Error::MaxRecords) and self.remove(&farthest_record)".into());
     }
 
-    // mark_as_stored: farthest replaced when `distance > farthest_record_distance`
+    // ---- mark_as_stored: farthest replaced when `new distance > farthest distance`
     let mark = impl_fn(&file, "NodeRecordStore", None, "mark_as_stored")?;
-    let sh = shapes(&mark.block);
-    let upd = sh.bins.iter().find(|(l, _, r)| l == "distance" && r == "farthest_record_distance")
-        .ok_or("mark_as_stored: expected `distance <op> farthest_record_distance`")?;
-    let upd_strict = match upd.1.as_str() {
-        ">" => true,
-        ">=" => false,
-        o => return Err(format!("mark_as_stored: unexpected operator `{o}`")),
+    let blocks = with_private_helpers(&file, &mark.block, &stop);
+    let (sh, b) = analyse(&blocks);
+    let cmps = comparisons(&sh, &b);
+    let is_new = |x: &str| x.contains(".distance(") && !x.contains("farthest_record");
+    let upd_strict = match cmps.iter().find(|(s, _, l)| (is_far_dist(s) && is_new(l)) || (is_far_dist(l) && is_new(s))) {
+        Some((s, strict, _)) if is_far_dist(s) => *strict,
+        other => return Err(format!("mark_as_stored: expected `<farthest distance> (<|<=) <distance of the new key>`, found {other:?} among {cmps:?}")),
     };
 
-    // cleanup_irrelevant_records: `accumulated_records < MAX_RECORDS_COUNT / D`, range `responsible_distance..`
+    // ---- cleanup_irrelevant_records: `records.len() < THRESHOLD` ⇒ return; range `responsible..`; loop of self.remove
     let cl = impl_fn(&file, "NodeRecordStore", None, "cleanup_irrelevant_records")?;
-    let sh = shapes(&cl.block);
-    let thr = sh.bins.iter().find(|(l, o, r)| l == "accumulated_records" && o == "<" && r.starts_with("MAX_RECORDS_COUNT/"))
-        .ok_or("cleanup_irrelevant_records: expected `accumulated_records < MAX_RECORDS_COUNT / <literal>`")?;
-    let divisor: u128 = thr.2["MAX_RECORDS_COUNT/".len()..].parse().map_err(|_| format!("cleanup_irrelevant_records: divisor not a literal in `{}`", thr.2))?;
-    if divisor == 0 {
-        return Err("cleanup_irrelevant_records: divisor is zero".into());
+    let blocks = with_private_helpers(&file, &cl.block, &stop);
+    let (sh, b) = analyse(&blocks);
+    // the threshold: the other side of the comparison with records.len(), evaluated as a constant expression
+    let mut cleanup_min: Option<u128> = None;
+    for (l, op, r) in &sh.bins {
+        let Some((small, strict, large)) = normalise(l, op, r) else { continue };
+        let (rs_small, rs_large) = (b.resolve(&small), b.resolve(&large));
+        let parse = |side: &str| -> Result<u128, String> {
+            let e: syn::Expr = syn::parse_str(side).map_err(|e| e.to_string())?;
+            eval_const(&e, &const_env)
+        };
+        if rs_small == "self.records.len()" {
+            // len < T (skip below T) or len <= T (skip up to T)
+            let orig = if small == *l { r } else { l };
+            let t = parse(&expand_spaces(orig))?;
+            cleanup_min = Some(if strict { t } else { t + 1 });
+        } else if rs_large == "self.records.len()" {
+            return Err(format!("cleanup_irrelevant_records: unexpected threshold test `{l} {op} {r}` (records.len() on the large side)"));
+        }
     }
-    let from = sh.ranges.iter().find(|(s, _, _)| s == "responsible_distance")
-        .ok_or("cleanup_irrelevant_records: expected the range `responsible_distance..`")?;
+    let cleanup_min = cleanup_min.ok_or("cleanup_irrelevant_records: no comparison of self.records.len() with a threshold")?;
+    let from = sh.ranges.iter().find(|(s, _, _)| b.resolve(s).contains("self.responsible_distance_range"))
+        .ok_or_else(|| format!("cleanup_irrelevant_records: expected a range starting at the responsible distance, found {:?}", sh.ranges))?;
     if !(from.1 == ".." && from.2.is_empty()) {
         return Err(format!("cleanup_irrelevant_records: unexpected range `{}{}{}`", from.0, from.1, from.2));
     }
-
-    // the clean-up loop removes each collected key through `self.remove(&key)` — the function whose spawned
-    // disk task deletes the record file; any other loop body is not what the model (and the restart theorems) assume
-    struct Loops(Vec<String>);
+    // the loop removes every collected key through `self.remove(..)` — the function whose spawned task deletes the file
+    struct Loops(Vec<(String, String, String)>);
     impl<'ast> Visit<'ast> for Loops {
         fn visit_expr_for_loop(&mut self, l: &'ast syn::ExprForLoop) {
-            self.0.push(format!("for {} in {} {}", ts(&l.pat), ts(&l.expr), ts(&l.body)));
+            self.0.push((ts(&l.pat), ts(&l.expr), ts(&l.body)));
             syn::visit::visit_expr_for_loop(self, l);
         }
     }
     let mut loops = Loops(vec![]);
-    loops.visit_block(&cl.block);
+    for blk in &blocks {
+        loops.visit_block(blk);
+    }
     match loops.0.as_slice() {
-        [one] if one == "for key in keys_to_remove {self.remove(&key);}" => {}
-        other => return Err(format!("cleanup_irrelevant_records: expected exactly `for key in keys_to_remove {{ self.remove(&key); }}`, found {other:?}")),
+        [(pat, iter, body)] => {
+            let body_ok = *body == format!("{{self.remove(&{pat});}}") || *body == format!("{{self.remove({pat});}}");
+            let src = b.resolve(iter.trim_end_matches(".iter()").trim_end_matches(".into_iter()"));
+            let iter_ok = src.contains("records_by_distance") && src.contains(".range(");
+            if !(body_ok && iter_ok) {
+                return Err(format!("cleanup_irrelevant_records: expected a loop `for key in <keys from records_by_distance.range(..)> {{ self.remove(&key); }}`, found `for {pat} in {iter} {body}`"));
+            }
+        }
+        other => return Err(format!("cleanup_irrelevant_records: expected exactly one loop over the keys to remove, found {other:?}")),
     }
     let rm = impl_fn(&file, "NodeRecordStore", Some("RecordStore"), "remove")?;
-    let c = calls_in_block(&rm.block);
+    let rm_stop: Vec<&str> = stop.iter().copied().filter(|x| *x != "remove").collect();
+    let c = calls_in_blocks(&with_private_helpers(&file, &rm.block, &rm_stop));
     if !c.paths.iter().any(|p| p == "fs::remove_file") || !c.paths.iter().any(|p| p == "spawn") {
         return Err("RecordStore::remove: expected a spawned fs::remove_file(file_path)".into());
     }
 
-    // get_records_within_distance_range: `..range` (exclusive) or `..=range`
+    // ---- get_records_within_distance_range: `..range` (exclusive) or `..=range`
     let within = impl_fn(&file, "NodeRecordStore", None, "get_records_within_distance_range")?;
-    let sh = shapes(&within.block);
-    let to = sh.ranges.iter().find(|(s, _, e)| s.is_empty() && e == "range")
-        .ok_or("get_records_within_distance_range: expected the range `..range`")?;
-    let within_exclusive = to.1 == "..";
+    let bound = first_param(&within.sig).ok_or("get_records_within_distance_range: no range parameter")?;
+    let (sh, b) = analyse(&with_private_helpers(&file, &within.block, &stop));
+    let within_exclusive = match sh.ranges.iter().find(|(s, _, e)| s.is_empty() && b.resolve(e) == bound) {
+        Some((_, lim, _)) if lim == ".." => true,
+        Some((_, lim, _)) if lim == "..=" => false,
+        other => return Err(format!("get_records_within_distance_range: expected the range `..{bound}` or `..={bound}`, found {other:?} among {:?}", sh.ranges)),
+    };
 
-    // update_records_from_an_existing_store: does the start-up scan test a size against max_value_bytes?
+    // ---- update_records_from_an_existing_store: does the start-up scan test a size against max_value_bytes?
     let scan = impl_fn(&file, "NodeRecordStore", None, "update_records_from_an_existing_store")?;
-    let sh = shapes(&scan.block);
-    let size_tests: Vec<&(String, String, String)> = sh.bins.iter().filter(|(l, _, r)| l.contains("max_value_bytes") || r.contains("max_value_bytes")).collect();
+    let scan_stop: Vec<&str> = stop.iter().copied().filter(|x| *x != "update_records_from_an_existing_store").collect();
+    let scan_blocks = with_private_helpers(&file, &scan.block, &scan_stop);
+    let (sh, b) = analyse(&scan_blocks);
+    let size_tests: Vec<(String, bool, String)> = sh.bins.iter().filter(|(l, _, r)| l.contains("max_value_bytes") || r.contains("max_value_bytes"))
+        .map(|(l, op, r)| normalise(l, op, r).ok_or_else(|| format!("update_records_from_an_existing_store: unexpected size test `{l} {op} {r}`")))
+        .collect::<Result<_, _>>()?;
     // (drops, compares the file length (else the decrypted value length), strict)
     let (scan_drops, scan_on_file, scan_strict) = match size_tests.as_slice() {
         [] => (false, true, true),
-        [(l, op, r)] => {
-            let (subject, strict) = if r.contains("max_value_bytes") {
-                match op.as_str() {
-                    ">" => (l, true),
-                    ">=" => (l, false),
-                    o => return Err(format!("update_records_from_an_existing_store: unexpected size test `{l} {o} {r}`")),
-                }
-            } else {
-                match op.as_str() {
-                    "<" => (r, true),
-                    "<=" => (r, false),
-                    o => return Err(format!("update_records_from_an_existing_store: unexpected size test `{l} {o} {r}`")),
-                }
-            };
-            let on_file = if subject.contains("meta") || subject.starts_with("bytes.len") || subject.contains("file") {
+        [(small, strict, large)] => {
+            if !small.contains("max_value_bytes") {
+                return Err(format!("update_records_from_an_existing_store: size test `{small} < {large}` keeps small files out?"));
+            }
+            let subject = b.resolve(large);
+            let on_file = if subject.contains("meta") || subject.contains("fs::read") || subject.starts_with("bytes.len") || subject.contains("file") {
                 true
-            } else if subject.contains("record.value") || subject.contains("value.len") {
+            } else if subject.contains("record.value") || subject.contains("value.len") || subject.contains("get_record_from_bytes") {
                 false
             } else {
                 return Err(format!("update_records_from_an_existing_store: cannot tell what `{subject}` measures in the size test"));
             };
-            let c = calls_in_block(&scan.block);
+            let c = calls_in_blocks(&scan_blocks);
             if !c.paths.iter().any(|p| p == "fs::remove_file") {
                 return Err("update_records_from_an_existing_store: size test without fs::remove_file".into());
             }
-            (true, on_file, strict)
+            (true, on_file, *strict)
         }
         more => return Err(format!("update_records_from_an_existing_store: {} size tests against max_value_bytes", more.len())),
     };
 
-    // file names: `generate_filename` = hex of the WHOLE key; `get_data_from_filename` = hex::decode with no filter
+    // ---- file names: `generate_filename` = hex of the WHOLE key; `get_data_from_filename` = hex::decode with no filter
     let gen_name = impl_fn(&file, "NodeRecordStore", None, "generate_filename")?;
-    let c = calls_in_block(&gen_name.block);
-    let sh = shapes(&gen_name.block);
+    let gstop: Vec<&str> = stop.iter().copied().filter(|x| *x != "generate_filename").collect();
+    let gblocks = with_private_helpers(&file, &gen_name.block, &gstop);
+    let c = calls_in_blocks(&gblocks);
+    let (sh, _) = analyse(&gblocks);
     if !c.paths.iter().any(|p| p == "hex::encode") {
         return Err("generate_filename: expected hex::encode(key.as_ref())".into());
     }
-    let name_full_hex = sh.ranges.is_empty() && sh.bins.is_empty() && c.methods.iter().all(|m| m == "as_ref");
+    let slicing = !sh.ranges.is_empty() || c.methods.iter().any(|m| ["min", "truncate", "take", "get", "split_at", "len"].contains(&m.as_str()));
+    let plain = sh.ranges.is_empty() && sh.bins.is_empty() && c.methods.iter().all(|m| ["as_ref", "to_vec", "as_slice"].contains(&m.as_str()));
+    let name_full_hex = match (plain, slicing) {
+        (true, _) => true,
+        (false, true) => false,
+        _ => return Err(format!("generate_filename: cannot tell whether the whole key is encoded (methods {:?})", c.methods)),
+    };
     let from_name = impl_fn(&file, "NodeRecordStore", None, "get_data_from_filename")?;
-    let c = calls_in_block(&from_name.block);
-    let sh = shapes(&from_name.block);
+    let fstop: Vec<&str> = stop.iter().copied().filter(|x| *x != "get_data_from_filename").collect();
+    let fblocks = with_private_helpers(&file, &from_name.block, &fstop);
+    let c = calls_in_blocks(&fblocks);
+    let (sh, _) = analyse(&fblocks);
     if !c.paths.iter().any(|p| p == "hex::decode") {
         return Err("get_data_from_filename: expected hex::decode(hex_str)".into());
     }
-    let allowed = ["into", "to_vec", "as_ref"];
-    let name_unfiltered = sh.bins.is_empty() && sh.ranges.is_empty() && c.methods.iter().all(|m| allowed.contains(&m.as_str()));
+    let plain = sh.bins.is_empty() && sh.ranges.is_empty() && c.methods.iter().all(|m| ["into", "to_vec", "as_ref", "ok", "map", "map_err", "inspect_err"].contains(&m.as_str()));
+    let filtering = !sh.bins.is_empty() || !sh.ranges.is_empty() || c.methods.iter().any(|m| ["len", "starts_with", "ends_with", "filter", "is_empty"].contains(&m.as_str()));
+    let name_unfiltered = match (plain, filtering) {
+        (true, _) => true,
+        (false, true) => false,
+        _ => return Err(format!("get_data_from_filename: cannot tell whether names are filtered (methods {:?})", c.methods)),
+    };
 
-    // RecordStore::put refuses `record.value.len() >= max_value_bytes`; put_verified has no size test
+    // ---- RecordStore::put refuses `value.len() >= max_value_bytes`; put_verified has no size test
     let kput = impl_fn(&file, "NodeRecordStore", Some("RecordStore"), "put")?;
-    let sh = shapes(&kput.block);
-    let t = sh.bins.iter().find(|(l, _, r)| l == "record.value.len()" && r == "self.config.max_value_bytes")
-        .ok_or("RecordStore::put: expected `record.value.len() <op> self.config.max_value_bytes`")?;
-    let put_inclusive = match t.1.as_str() {
-        ">=" => true,
-        ">" => false,
-        o => return Err(format!("RecordStore::put: unexpected operator `{o}` in the size test")),
+    let rec = first_param(&kput.sig).ok_or("RecordStore::put: no record parameter")?;
+    let pstop: Vec<&str> = stop.iter().copied().filter(|x| *x != "put").collect();
+    let (sh, b) = analyse(&with_private_helpers(&file, &kput.block, &pstop));
+    let cmps = comparisons(&sh, &b);
+    let len_of = format!("{rec}.value.len()");
+    let put_inclusive = match cmps.iter().find(|(s, _, l)| (s == "self.config.max_value_bytes" && *l == len_of) || (l == "self.config.max_value_bytes" && *s == len_of)) {
+        // max <= len  ⇔  len >= max
+        Some((s, strict, _)) if s == "self.config.max_value_bytes" => !*strict,
+        other => return Err(format!("RecordStore::put: expected `{len_of} (>=|>) self.config.max_value_bytes`, found {other:?}")),
     };
     let pv = impl_fn(&file, "NodeRecordStore", None, "put_verified")?;
-    let sh = shapes(&pv.block);
+    let vstop: Vec<&str> = stop.iter().copied().filter(|x| *x != "put_verified").collect();
+    let (sh, _) = analyse(&with_private_helpers(&file, &pv.block, &vstop));
     if sh.bins.iter().any(|(l, _, r)| l.contains("max_value_bytes") || r.contains("max_value_bytes")) {
         return Err("put_verified: a size test against max_value_bytes appeared (the model has none)".into());
     }
     let driver = parse_file(&repo.join("ant-networking/src/driver.rs"))?;
     let max_packet = const_value(&driver, "MAX_PACKET_SIZE")?;
 
-    // both (de)cryption helpers are switched by cfg!(feature = "encrypt-records")
+    // ---- both (de)cryption helpers are switched by cfg!(feature = "encrypt-records")
     for f in ["get_record_from_bytes", "prepare_record_bytes"] {
         let item = impl_fn(&file, "NodeRecordStore", None, f)?;
-        let c = calls_in_block(&item.block);
+        let hstop: Vec<&str> = stop.iter().copied().filter(|x| *x != f).collect();
+        let c = calls_in_blocks(&with_private_helpers(&file, &item.block, &hstop));
         if !c.macros.iter().any(|(n, t)| n == "cfg" && t.replace(' ', "") == "feature=\"encrypt-records\"") {
             return Err(format!("{f}: expected `cfg!(feature = \"encrypt-records\")`"));
         }
@@ -258,7 +447,7 @@ pub fn generate(repo: &PathBuf) -> Result<String, String> {
     s.push_str("namespace SafeNet.Gen.Store\n");
     s.push_str(&format!("/-- `MAX_RECORDS_COUNT` -/\ndef maxRecordsCount : Nat := {max_records}\n"));
     s.push_str(&format!("/-- `MAX_RECORDS_CACHE_SIZE` -/\ndef maxRecordsCacheSize : Nat := {cache_size}\n"));
-    s.push_str(&format!("/-- clean-up applies from `MAX_RECORDS_COUNT / cleanupDivisor` records on -/\ndef cleanupDivisor : Nat := {divisor}\n"));
+    s.push_str(&format!("/-- clean-up applies from this many records on (`MAX_RECORDS_COUNT / 10` in the source) -/\ndef cleanupMin : Nat := {cleanup_min}\n"));
     s.push_str(&format!("/-- `prune_records_if_needed` refuses when `farthest < incoming` (strict) -/\ndef pruneRefuseStrict : Bool := {}\n", lean_bool(refuse_strict)));
     s.push_str(&format!("/-- `mark_as_stored` replaces the farthest record when `distance > farthest` (strict) -/\ndef farthestUpdateStrict : Bool := {}\n", lean_bool(upd_strict)));
     s.push_str(&format!("/-- `get_records_within_distance_range` counts `..range` (exclusive upper bound) -/\ndef withinRangeExclusive : Bool := {}\n", lean_bool(within_exclusive)));
